@@ -3,11 +3,13 @@
 (* Engine selection, variable initialisation, stepping and compilation as  *)
 (* a state machine (C12, C13, C19), over a fixed small network             *)
 (*                                                                         *)
-(*     O1 (mainstream) -> N1 --LA--> N2 --L2--> N3 -> D1 (congested)       *)
+(*     O1 (mainstream) -> N1 --LA--> N2 --L2--> N3 -> DST                  *)
 (*                                   ^ R (metered ramp)                    *)
 (*                                                                         *)
-(* where LA is L1 or, after add_later("L3"), the replacement link L3, and  *)
-(* R is R1 or, after add_later("R2"), the replacement ramp R2.             *)
+(* where LA is L1 or, after add_later("L3"), the replacement link L3, R is *)
+(* R1 or, after add_later("R2"), the replacement ramp R2, and DST is the   *)
+(* free destination D0 (no variables) or, after add_later("D1"), the       *)
+(* congested destination D1 (a disturbance variable).                      *)
 (* One public call = one pure function Apply(S, call).                     *)
 (*                                                                         *)
 (* State S:                                                                *)
@@ -26,31 +28,33 @@
 (***************************************************************************)
 EXTENDS Integers, Sequences, FiniteSets, TLC
 
-Elements == {"L1", "L2", "L3", "O1", "R1", "R2", "D1"}
+Elements == {"L1", "L2", "L3", "O1", "R1", "R2", "D0", "D1"}
+Declaring == Elements \ {"D0"}                          \* elements that declare variables (the free destination has none)
 Stateful == {"L1", "L2", "L3", "O1", "R1", "R2"}        \* elements with states (D1 only has a disturbance)
 Kinds == {"np", "sx", "mx"}
 NoNext == [has |-> FALSE]
 
-InNet(S) == {S.la, "L2", "O1", S.r, "D1"}
+InNet(S) == {S.la, "L2", "O1", S.r, S.dst}
 \* the network's own enumeration order: links, origins, destinations
-ElemOrder(S) == <<S.la, "L2", "O1", S.r, "D1">>
+ElemOrder(S) == <<S.la, "L2", "O1", S.r, S.dst>>
 \* the elements whose variables the step of e reads (Metanet!Deps lifted to elements)
 Deps(S, e) == CASE e = S.la -> {S.la, "O1", "L2"}
-                [] e = "L2" -> {"L2", S.la, S.r, "D1"}
+                [] e = "L2" -> {"L2", S.la, S.r, S.dst}
                 [] e = "O1" -> {"O1", S.la}
                 [] e = S.r  -> {S.r, "L2"}
                 [] OTHER -> {e}
 
-Init0 == [cur |-> [kind |-> "sx", id |-> "default"], la |-> "L1", r |-> "R1",
+Init0 == [cur |-> [kind |-> "sx", id |-> "default"], la |-> "L1", r |-> "R1", dst |-> "D0",
           vars |-> [e \in Elements |-> ""], nxt |-> [e \in Elements |-> NoNext], nfresh |-> 0]
 
 KindOf(S, eng) == IF eng = "" THEN S.cur.kind ELSE eng
 
 \* (re)creating the variables of e makes every next state built from them stale
 InitEl(S, e, k) ==
+  IF e \notin Declaring THEN S ELSE
   [S EXCEPT !.vars[e] = k,
             !.nxt = [x \in Elements |-> IF S.nxt[x].has /\ e \in S.nxt[x].deps THEN [S.nxt[x] EXCEPT !.stale = TRUE] ELSE S.nxt[x]]]
-StepOk(S, e, k) == e \in Stateful /\ \A d \in Deps(S, e) : S.vars[d] = k
+StepOk(S, e, k) == e \in Stateful /\ \A d \in Deps(S, e) \cap Declaring : S.vars[d] = k
 StepEl(S, e, k, par, opts, vals) ==
   [S EXCEPT !.nxt[e] = [has |-> TRUE, kind |-> k, deps |-> Deps(S, e), stale |-> FALSE, par |-> par, opts |-> opts, vals |-> vals]]
 RECURSIVE InitAll(_, _, _)
@@ -63,13 +67,16 @@ NetStep(S, k, par, opts, vals) ==
   StepAll(InitAll(S, ElemOrder(S), k), <<"O1", S.r, S.la, "L2">>, k, par, opts, vals)
 
 \* readiness of to_function (C19)
-Uninitialised(S) == {e \in InNet(S) : S.vars[e] = ""}
+Uninitialised(S) == {e \in InNet(S) \cap Declaring : S.vars[e] = ""}
 Unstepped(S) == {e \in InNet(S) \cap Stateful : ~S.nxt[e].has}
 Stale(S) == {e \in InNet(S) \cap Stateful : S.nxt[e].has /\ S.nxt[e].stale}
 Ready(S) == Uninitialised(S) = {} /\ Unstepped(S) = {} /\ Stale(S) = {}
 \* all next states come from one and the same step call with uniform parameters (then the function's value is Metanet!StepOpt)
-Uniform(S) == \A a, b \in InNet(S) \cap Stateful :
-                 S.nxt[a].has /\ S.nxt[b].has => (S.nxt[a].par = S.nxt[b].par /\ S.nxt[a].opts = S.nxt[b].opts)
+\* ... and every element was last stepped with its present neighbours (a replaced neighbour without variables, the free
+\* destination, leaves no stale symbol behind: the old next state is then still a function, of the OLD network)
+Uniform(S) == /\ \A a, b \in InNet(S) \cap Stateful :
+                   S.nxt[a].has /\ S.nxt[b].has => (S.nxt[a].par = S.nxt[b].par /\ S.nxt[a].opts = S.nxt[b].opts)
+              /\ \A a \in InNet(S) \cap Stateful : S.nxt[a].has => S.nxt[a].deps = Deps(S, a)
 \* the model leaves mixed engine kinds unspecified: compilation is only modelled when everything is of the compiling kind
 Homogeneous(S, k) == /\ \A e \in InNet(S) : S.vars[e] \in {"", k}
                      /\ \A e \in InNet(S) \cap Stateful : S.nxt[e].has => S.nxt[e].kind = k
@@ -80,10 +87,10 @@ KindOfName(n) == IF n = "numpy" THEN "np" ELSE "sx"
 \* call = <<op, args...>>;  result [S, res].  An action is enabled when Enabled(S, c).
 CallEnabled(S, c) ==
   CASE c[1] = "step" -> c[2] \in InNet(S) \cap Stateful
-                        /\ (S.vars[c[2]] = "" \/ \E d \in Deps(S, c[2]) : S.vars[d] = "" \/ StepOk(S, c[2], KindOf(S, c[3])))
+                        /\ (S.vars[c[2]] = "" \/ (\E d \in Deps(S, c[2]) \cap Declaring : S.vars[d] = "") \/ StepOk(S, c[2], KindOf(S, c[3])))
     [] c[1] = "init" -> c[2] \in InNet(S)
     [] c[1] = "compile" -> Homogeneous(S, c[2])
-    [] c[1] = "add_later" -> (c[2] = "R2" /\ S.r = "R1") \/ (c[2] = "L3" /\ S.la = "L1")
+    [] c[1] = "add_later" -> (c[2] = "R2" /\ S.r = "R1") \/ (c[2] = "L3" /\ S.la = "L1") \/ (c[2] = "D1" /\ S.dst = "D0")
     [] OTHER -> TRUE
 
 Apply(S, c) ==
@@ -95,18 +102,18 @@ Apply(S, c) ==
             ELSE [S |-> S, res |-> <<"error", "EngineNotFoundError">>]
        [] op = "use_inst" -> [S |-> [S EXCEPT !.cur = [kind |-> c[3], id |-> c[2]]], res |-> <<"engine", c[3], c[2]>>]
        [] op = "net_step" -> [S |-> NetStep(S, KindOf(S, c[2]), c[3], c[4], c[5]), res |-> <<"ok", KindOf(S, c[2])>>]
-       [] op = "init" -> [S |-> InitEl(S, c[2], IF c[2] \in {"L1", "L2", "L3", "O1", "R1", "R2", "D1"} THEN KindOf(S, c[3]) ELSE ""),
+       [] op = "init" -> [S |-> InitEl(S, c[2], KindOf(S, c[3])),
                           res |-> <<"ok", KindOf(S, c[3])>>]
        [] op = "init_all" -> [S |-> InitAll(S, ElemOrder(S), KindOf(S, c[2])), res |-> <<"ok", KindOf(S, c[2])>>]
        [] op = "step" ->
             IF S.vars[c[2]] = "" THEN [S |-> S, res |-> <<"error", "AssertionError">>]
-            ELSE IF \E d \in Deps(S, c[2]) : S.vars[d] = "" THEN [S |-> S, res |-> <<"error", "any">>]
+            ELSE IF \E d \in Deps(S, c[2]) \cap Declaring : S.vars[d] = "" THEN [S |-> S, res |-> <<"error", "any">>]
             ELSE [S |-> StepEl(S, c[2], KindOf(S, c[3]), c[4], c[5], ""), res |-> <<"ok", KindOf(S, c[3])>>]
        [] op = "add_later" ->
-            LET old == IF c[2] = "R2" THEN "R1" ELSE "L1"
-                S1 == IF c[2] = "R2" THEN [S EXCEPT !.r = "R2"] ELSE [S EXCEPT !.la = "L3"]
+            LET old == CASE c[2] = "R2" -> "R1" [] c[2] = "L3" -> "L1" [] OTHER -> "D0"
+                S1 == CASE c[2] = "R2" -> [S EXCEPT !.r = "R2"] [] c[2] = "L3" -> [S EXCEPT !.la = "L3"] [] OTHER -> [S EXCEPT !.dst = "D1"]
             IN \* the replaced element's variables are no longer the network's: what was built from them is stale
-               [S |-> [S1 EXCEPT !.nxt = [x \in Elements |-> IF S.nxt[x].has /\ old \in S.nxt[x].deps
+               [S |-> [S1 EXCEPT !.nxt = [x \in Elements |-> IF S.nxt[x].has /\ old \in S.nxt[x].deps \cap Declaring
                                                                THEN [S.nxt[x] EXCEPT !.stale = TRUE] ELSE S.nxt[x]]],
                 res |-> <<"ok", "">>]
        [] op = "compile" ->
@@ -122,7 +129,9 @@ StepMakesReady(S, c, T) == c[1] = "net_step" => Ready(T)
 \* C19: touching an element after the last step always makes the network unready until the affected elements are stepped again
 TouchUnreadies(S, c, T) ==
   (c[1] = "init" /\ c[2] \in Stateful /\ c[2] \in InNet(S) /\ S.nxt[c[2]].has) => ~Ready(T)
-AddUnreadies(S, c, T) == c[1] = "add_later" => ~Ready(T)
+AddUnreadies(S, c, T) == (c[1] = "add_later" /\ c[2] # "D1") => ~Ready(T)
+\* the congested destination added later has no variables yet: unready until it is initialised
+AddDestUnreadies(S, c, T) == (c[1] = "add_later" /\ c[2] = "D1") => ~Ready(T)
 \* C13 (UseSemantics)
 UseSemantics(S, c, T, res) ==
   /\ (c[1] = "use" /\ c[2] \in Available) => (T.cur.kind = KindOfName(c[2]) /\ T.cur.id # S.cur.id /\ res = <<"engine", T.cur.kind, T.cur.id>>)
@@ -132,8 +141,8 @@ UseSemantics(S, c, T, res) ==
 \* C13 (ExplicitHonoured): every variable and next state produced by a call carries the kind of the engine
 \* passed explicitly, or of the selected engine when none is passed
 ExplicitHonoured(S, c, T) ==
-  /\ c[1] = "net_step" => /\ \A e \in InNet(T) : T.vars[e] = KindOf(S, c[2])
+  /\ c[1] = "net_step" => /\ \A e \in InNet(T) \cap Declaring : T.vars[e] = KindOf(S, c[2])
                           /\ \A e \in InNet(T) \cap Stateful : T.nxt[e].has /\ T.nxt[e].kind = KindOf(S, c[2])
-  /\ c[1] = "init" => T.vars[c[2]] = KindOf(S, c[3])
-  /\ c[1] = "init_all" => \A e \in InNet(T) : T.vars[e] = KindOf(S, c[2])
+  /\ (c[1] = "init" /\ c[2] \in Declaring) => T.vars[c[2]] = KindOf(S, c[3])
+  /\ c[1] = "init_all" => \A e \in InNet(T) \cap Declaring : T.vars[e] = KindOf(S, c[2])
 =============================================================================
